@@ -219,6 +219,8 @@ def run(ctx):
 
     # ---------------------------------------------------------------- R5 ExplicitError never swallowed
     n5 = check_swallow(ctx, M, S)
+    from . import C01
+    C01.buildnone_flags(ctx, "C13.R5", only={"Error", "Check", "StopIf"})      # an unsupplied Error/Check member is reached inside Struct (not pre-empted by a KeyError)
     nt = check_template_swallow(ctx, M, S)
     ctx.floor("C13.R5", 11)
     # ---------------------------------------------------------------- R6 the compiled forms of the validating / mapping classes (shared with C04.R3)
